@@ -1,6 +1,6 @@
 from datetime import datetime
 from plasTeX.Tokenizer import Token, EscapeSequence, Other
-from plasTeX import Macro, Command, CountCommand
+from plasTeX import Macro, Command, CountCommand, UnrecognizedMacro
 from plasTeX import sourceChildren
 from plasTeX.Logging import getLogger
 
@@ -355,7 +355,13 @@ class ifdefined(IfCommand):
     def invoke(self, tex):
         a = self.parse(tex)
         n = str(a['name'].macroName)
-        b = n in self.ownerDocument.context
+        context = self.ownerDocument.context
+        # A name that was merely looked up before is registered as an
+        # unrecognized macro; it is still undefined
+        b = n in context
+        if b:
+            m = context[n]
+            b = not (isinstance(m, type) and issubclass(m, UnrecognizedMacro))
         tex.processIfContent(b)
         return []
 
@@ -486,9 +492,15 @@ class jobname(Command):
 
 class long(Command): pass
 
-class undefined(Command): pass
+class undefined(Command):
+    # \ifx\undefined\foo must give the same answer as \ifx\foo\undefined
+    def __eq__(self, other):
+        if isinstance(other, UnrecognizedMacro):
+            return other == self
+        return Command.__eq__(self, other)
+    __hash__ = Command.__hash__
 
-class undefined_(Command):
+class undefined_(undefined):
     macroName = '@undefined'
 
 class vobeyspaces_(Command):
